@@ -18,6 +18,7 @@ TB = [
     "md5 is not modelled (pre-image compared; the harness applies hashlib.md5); the sequence -> hashes path is C02's model (Model/SeqToHashes.lean, hash function a parameter in the theorems, Model/Murmur3.lean in the driver): sketch_eq_direct_sequences composes it with the two sketch models, and the sketch stream's feed/names ops have the Lean driver compute every hash of every generated record itself and compare hashes, abundances and md5 with the real factory-built and directly-created sketches",
     "hand-written decision model lean/SmVerif/Model/SketchFromfile.lean of `sketch fromfile` (requested / already done / missing / built, grouping, exits) tied to /repo by fromfile ops that run the real command in-process (CSV, FASTA files and an --already-done zip in a temp dir); the Rust path ComputeParameters -> Signature::from_params -> add_sequence/add_protein tied by rust-harness module `sketch` (native ops)",
     "hand-written decision model lean/SmVerif/Model/SketchNames.lean of _compute_individual / _compute_merged / set_sig_name (grouping of records into signatures, names, recorded file name), tied to /repo by `names` ops that run the real _execute_sketch in-process on temp FASTA files under .build/tmp",
+    "hand-written model lean/SmVerif/Model/SketchCompute.lean of `sourmash compute`'s option -> ComputeParameters mapping and its exits, tied to /repo by `cmp` ops; `sk` / `cmp` / `fromfilecli` ops go through sourmash.__main__.main(argv) in the adapter process (argparse, sourmash.cli.sketch.*, command_sketch.dna/protein/translate/fromfile/_compute_sigs/_add_from_file_to_filenames, command_compute.compute) on temp files and read the written signatures back; the translator refuses to run when any definition shared by command_sketch.py and command_compute.py differs between the two files, and reads off whether --output-dir is created (sketchCreatesOutdir)",
     "Stable (max_hash_for_scaled . scaled_for_max_hash = id on the threshold) is a hypothesis of the conversion theorems; proved here by kernel evaluation for 13 common scaled values, in general it is C03's theorem for scaled <= 2^31",
 ]
 AS = ["sketches are num or scaled, not both (Excl): proved for everything the factory builds (factory_builds_excl); the Rust constructors also accept both, where KmerMinHash overgrows (C01 finding) and the two types disagree",
@@ -37,7 +38,11 @@ RULE = ("twin stream: histories of 1..50 ops (add, add_hash_with_abundance incl.
         "sub-directories; fromfile ops: 1-3 -p groups, a CSV of 1-4 rows with blank cells / duplicate or blank names, genome and protein "
         "FASTA files, an --already-done zip holding matches, near misses and strangers, through the real command_sketch.fromfile; native "
         "ops: ComputeParameters / Signature::from_params / add_sequence / add_protein through the Rust harness (any flag combination, num "
-        "and/or scaled); every refusal is compared with its reason code (one per raise site); non-trivial = a fed sketch holds >= 2 hashes; "
+        "and/or scaled); cli ops (1 case in 9): `sourmash sketch dna|protein|translate` with -p strings, `sourmash compute` with -k lists, "
+        "--dna/--protein/--dayhoff/--hp/--input-is-protein, --num-hashes, --scaled (0, < 1, fractional, integer), --track-abundance, "
+        "--seed, and `sourmash sketch fromfile`, each with the layout options above and --from-file, in-process through "
+        "sourmash.__main__.main; the independent oracle expects one sketch per requested (k, moltype) for every unit the documentation "
+        "names; every refusal is compared with its reason code (one per raise site); non-trivial = a fed sketch holds >= 2 hashes; "
         "distinct = distinct op lists")
 
 
@@ -49,7 +54,7 @@ def classify(case, impl, model, k):
 def run_sketch_stream(chk, pkg, n):
     cases = streamlib.corpus_cases("C14-sketch")
     for i in range(n):
-        cases.append(sketch.gen_case(chk.rng, ["grammar", "feed", "feed", "names"][i % 4]))
+        cases.append(sketch.gen_case(chk.rng, ["grammar", "feed", "feed", "names", "grammar", "feed", "names", "feed", "cli"][i % 9]))
     res = streamlib.run_cases(sketch, cases, pkg, procs=16, per_proc_min=10)
     distinct = set()
     opcount = {}
